@@ -603,6 +603,44 @@ func runC16(ctx *Ctx, idx int) {
 	if d3, err := proto.Marshal(tmsg); err != nil || !bytes.Equal(d3, data) {
 		viol("remarshal-differs", map[string]interface{}{"error": fmt.Sprint(err)})
 	}
+	// struct elements with blank padding fields through the generic array
+	if idx%6 == 3 && n > 0 {
+		ps := make([]PadStruct, n)
+		for i := range ps {
+			ps[i] = PadStruct{Kind: uint8(vals[i]), Off: uint32(vals[i] >> 5), Score: float32(int16(vals[i]>>3)) / 4, Tail: int16(i)}
+		}
+		pv, stack := try(func() {
+			pa, err := array.New(ixs, ps)
+			if err != nil || pa == nil {
+				viol("padded-struct-build-failed", map[string]interface{}{"error": fmt.Sprint(err)})
+				return
+			}
+			d, e2 := proto.Marshal(pa)
+			pl, e3 := array.NewEmpty(PadStruct{})
+			if e2 != nil || e3 != nil || proto.Unmarshal(d, pl) != nil {
+				viol("padded-struct-roundtrip-failed", map[string]interface{}{"errors": fmt.Sprint(e2, e3)})
+				return
+			}
+			for _, a := range []*array.Array{pa, pl} {
+				for pi, p := range probes {
+					if pi > 3000 {
+						break
+					}
+					v, ok := a.Get(p)
+					j := sort.Search(n, func(i int) bool { return ixs[i] >= p })
+					present := j < n && ixs[j] == p
+					if ok != present || (present && !reflect.DeepEqual(v, ps[j])) || (!present && v != nil) {
+						viol("struct-wrong-answer", map[string]interface{}{"element_type": "PadStruct", "probe": p, "found": ok, "value": fmt.Sprint(v)})
+						return
+					}
+				}
+			}
+			ctx.Count("arrays:padded_struct_elements", 1)
+		})
+		if pv != nil {
+			viol("accessor-panic", map[string]interface{}{"element_type": "PadStruct", "panic": fmt.Sprint(pv), "stack": stack})
+		}
+	}
 	// struct elements through the generic array
 	if idx%6 == 0 && n > 0 {
 		ss := make([]TStruct, n)
@@ -755,7 +793,7 @@ func init() {
 		Run:           runC16,
 		MinNontrivial: func(tier string) int { return 500 },
 		Gates: shapeGates("type:U16", "type:U32", "type:U64", "type:I16", "type:I32", "type:I64", "arrays:all_indexes_probed", "arrays:with_empty_words", "arrays:empty", "arrays:single",
-			"arrays:struct_elements", "arrays:defined_element_types", "rejected:ErrIndexNotAscending:equal", "rejected:ErrIndexNotAscending:descending", "rejected:ErrIndexLen", "invalid:every_position_lists", "rejected_init_leaves_fresh_value_empty", "rejected_init_leaves_used_array_untouched", "probes:typed-after-roundtrip", "probes:generic-after-roundtrip", "long_lived_load_target_loaded", "long_lived_load_target_dense_before_load"),
+			"arrays:struct_elements", "arrays:padded_struct_elements", "arrays:defined_element_types", "rejected:ErrIndexNotAscending:equal", "rejected:ErrIndexNotAscending:descending", "rejected:ErrIndexLen", "invalid:every_position_lists", "rejected_init_leaves_fresh_value_empty", "rejected_init_leaves_used_array_untouched", "probes:typed-after-roundtrip", "probes:generic-after-roundtrip", "long_lived_load_target_loaded", "long_lived_load_target_dense_before_load"),
 		Assumptions: []string{"probes stay inside the bitmap span, as the statement says"},
 	})
 }
